@@ -20,6 +20,18 @@ Proof.
   rewrite (overlapping_exact t _ s Hs), Hm. reflexivity.
 Qed.
 
+(* time points between grid points (a float t that is not a multiple of the configured precision):
+   the same scan on k-fold refined coordinates answers the rational time q / k exactly, and on
+   grid points it is the plain query; this is what the correspondence evaluates for quarter ticks *)
+Theorem C18_overlapping_between_grid_points : forall k q l s, 0 < k -> ssorted l ->
+  (In s (overlapping_q k q l) <-> In s l /\ k * st s <= q <= k * en s).
+Proof. exact overlapping_q_exact. Qed.
+Theorem C18_refined_query_is_the_query_on_scaled_timeline : forall k q l,
+  overlapping q (map (scale_seg k) l) = map (scale_seg k) (overlapping_q k q l).
+Proof. exact overlapping_scaled. Qed.
+Theorem C18_refined_query_on_grid : forall k t l, 0 < k -> overlapping_q k (k * t) l = overlapping t l.
+Proof. exact overlapping_on_grid. Qed.
+
 Theorem C18_result_chronological : forall t l, ssorted l -> ssorted (overlapping t l).
 Proof. intros t l H. rewrite (overlapping_spec t l H). now apply filter_ssorted. Qed.
 
@@ -45,3 +57,6 @@ Print Assumptions C18_on_reachable_timelines.
 Print Assumptions C18_result_chronological.
 Print Assumptions C18_old_query_characterised.
 Print Assumptions C18_old_query_refuted.
+Print Assumptions C18_overlapping_between_grid_points.
+Print Assumptions C18_refined_query_is_the_query_on_scaled_timeline.
+Print Assumptions C18_refined_query_on_grid.
